@@ -498,15 +498,25 @@ def _builtin_exception_parents():
 _EXC_PARENTS = _builtin_exception_parents()
 
 
-def _handler_matches(htype, exc):
+def _handler_matches(htype, exc, module=None):
+    """does `except <htype>` catch an exception of the class named exc: the class, its base classes when it is a class of the analysed
+    modules (class MyError(Error, ValueError)), the parents of the builtin exceptions, Exception and BaseException"""
     if htype is None:
         return True
     names = [norm(e) for e in htype.elts] if isinstance(htype, ast.Tuple) else [norm(htype)]
-    chain = [exc, exc.split('.')[-1]]
-    cur = exc.split('.')[-1]
-    while cur in _EXC_PARENTS:
-        cur = _EXC_PARENTS[cur]
+    chain, todo = [], [exc.split('.')[-1]]
+    if exc not in todo:
+        chain.append(exc)
+    while todo:
+        cur = todo.pop(0)
+        if cur in chain:
+            continue
         chain.append(cur)
+        cd = module.classes.get(cur) if module is not None and hasattr(module, 'classes') else None
+        if cd is not None:
+            todo.extend(norm(b).split('.')[-1] for b in cd.bases)
+        elif cur in _EXC_PARENTS:
+            todo.append(_EXC_PARENTS[cur])
     chain += ['Exception', 'BaseException'] if 'Exception' not in chain else ['BaseException']
     return any(n in chain or n.split('.')[-1] in chain for n in names)
 
@@ -1450,6 +1460,16 @@ class Interp:
             if len(args) > 1:
                 env_['#a1'] = args[1]
             return self.ev(ast.fix_missing_locations(ast.copy_location(node_, e)), env_, cls)
+        if isinstance(fn, ast.Name) and fn.id == 'issubclass' and 'issubclass' not in env and len(args) == 2 and not kwargs \
+                and isinstance(args[0], tuple) and len(args[0]) == 2 and args[0][0] == 'class' and isinstance(args[0][1], str):
+            want_ = [args[1]] if not (isinstance(args[1], tuple) and args[1] and isinstance(args[1][0], tuple)) else list(args[1])
+            if all(isinstance(w_, tuple) and len(w_) == 2 and w_[0] == 'class' and isinstance(w_[1], str) for w_ in want_):
+                t_ = ast.Tuple(elts=[ast.Name(id=w_[1], ctx=ast.Load()) for w_ in want_], ctx=ast.Load())
+                if args[0][1] in h.module.classes or args[0][1] in _EXC_PARENTS or args[0][1] in ('Exception', 'BaseException'):
+                    # (exception classes and classes of the module: by their base classes)
+                    if args[0][1] in h.module.classes and not any(w_[1] in _EXC_PARENTS or w_[1] in ('Exception', 'BaseException') for w_ in want_):
+                        return any(w_[1] in h.module.mro(args[0][1]) for w_ in want_)
+                    return _handler_matches(t_, args[0][1], h.module) and not (args[0][1] not in ('Exception', 'BaseException') and [w_[1] for w_ in want_] == ['#none'])
         if isinstance(fn, ast.Name) and fn.id == 'hash' and 'hash' not in env and 'hash' not in h.hooks and len(args) == 1 and not kwargs:
             # hash(x): of a decided text / number / tuple of such -- CPython's own (equal values, equal hashes, within this run); of an
             # object of the module -- its __hash__, else its identity
@@ -2293,6 +2313,13 @@ class Interp:
         """obj.attr = value: through the class's own __setattr__ when it defines one (heap.intercept_setattr), through the setter of a
         property(fget, fset) of the class, else the plain store"""
         h = self.h
+        if isinstance(ref, tuple) and len(ref) == 2 and ref[0] == 'class' and isinstance(ref[1], str) and ref[1] in h.module.classes:
+            # Class.attr = value: the class-level variable itself (what every instance without an attribute of its own reads)
+            node_, owner_ = h.module.class_const_node(ref[1], attr)
+            h.__dict__.setdefault('class_vars', {})[(owner_ or ref[1], attr)] = value
+            h.__dict__.setdefault('class_stores', set()).add((owner_ or ref[1], attr))
+            h.version += 1
+            return
         if ref is None or isinstance(ref, (str, bytes, int, float, bool, tuple, frozenset)):
             raise Raised('AttributeError', h.version, 0)          # None / a text / a number takes no attribute
         if isinstance(ref, Ref) and h.objs[ref.name]['__class__'] in h.module.classes and not attr.startswith('__'):
@@ -2380,6 +2407,9 @@ class Interp:
     def class_value(self, cname, attr, cur_cls):
         """class-level constants that are values of the model: compiled regexes, namedtuple types, plain constants"""
         h = self.h
+        for c_ in (h.module.mro(cname) if cname in h.module.classes else [cname]):
+            if (c_, attr) in h.__dict__.get('class_stores', ()):
+                return h.class_vars[(c_, attr)]          # (a class-level variable that was assigned through the class)
         for nm in (attr, h.fld(attr, cur_cls or cname)):
             raw = nm
             if cur_cls and nm.startswith('_' + cur_cls.lstrip('_') + '__'):
@@ -2885,7 +2915,7 @@ class Interp:
                 pending = x_
                 for v_, ex_ in reversed(entered):
                     if v_ == 'suppress':
-                        if pending is not None and ex_.elts and _handler_matches(ex_, pending.exc):
+                        if pending is not None and ex_.elts and _handler_matches(ex_, pending.exc, h.module):
                             pending = None
                         continue
                     if v_ == 'stream':
@@ -2932,6 +2962,14 @@ class Interp:
         if isinstance(st, ast.Raise):
             if isinstance(st.exc, ast.Name) and isinstance(env.get(st.exc.id), tuple) and len(env[st.exc.id]) == 2 and env[st.exc.id][0] == 'exception':
                 raise Raised(env[st.exc.id][1], h.version, st.lineno)          # raise e: the exception a handler bound to that name
+            tgt_ = st.exc.func if isinstance(st.exc, ast.Call) else st.exc
+            if isinstance(tgt_, ast.Name) and isinstance(env.get(tgt_.id), tuple) and len(env[tgt_.id]) == 2 and env[tgt_.id][0] == 'class' and isinstance(env[tgt_.id][1], str):
+                if isinstance(st.exc, ast.Call):
+                    for a_ in st.exc.args:
+                        self.ev(a_, env, cls)          # (the arguments are computed)
+                raise Raised(env[tgt_.id][1], h.version, st.lineno)          # raise <a local that holds an exception class>
+            if st.exc is None and env.get('#handling'):
+                raise Raised(env['#handling'], h.version, st.lineno)          # a bare raise: the exception being handled
             name = norm(st.exc.func) if isinstance(st.exc, ast.Call) else (norm(st.exc) if st.exc is not None else 're-raise')
             raise Raised(name, h.version, st.lineno)
         if isinstance(st, ast.Delete):
@@ -2967,15 +3005,19 @@ class Interp:
                     return self.run(st.orelse, env, cls)
                 except Raised as x:
                     for hd in st.handlers:
-                        if _handler_matches(hd.type, x.exc):
+                        if _handler_matches(hd.type, x.exc, h.module):
                             if hd.name:
                                 env[hd.name] = ('exception', x.exc)
+                            outer_ = env.get('#handling')
+                            env['#handling'] = x.exc          # (what a bare `raise` inside the handler raises again)
                             try:
                                 return self.run(hd.body, env, cls)
                             except Raised as y:
                                 if y.exc == 're-raise':
                                     raise Raised(x.exc, h.version, y.lineno)
                                 raise
+                            finally:
+                                env['#handling'] = outer_
                     raise
             if not st.finalbody:
                 return guarded_()
@@ -2987,6 +3029,9 @@ class Interp:
                 rf = self.run(st.finalbody, env, cls)
                 if rf is not None:
                     return rf
+                raise
+            except _GenExit:
+                self.run(st.finalbody, env, cls)          # a generator that is closed at its yield runs its final blocks
                 raise
             rf = self.run(st.finalbody, env, cls)
             return rf if rf is not None else r
